@@ -87,12 +87,13 @@ type consumer struct {
 }
 
 type accessInv struct {
-	n     int
-	rc    *rcall
-	ctx   context.Context
-	start int
-	end   int
-	err   error
+	n      int
+	rc     *rcall
+	ctx    context.Context
+	start  int
+	shared bool // the value pointer was handed out by more than one (released) resolver call
+	end    int
+	err    error
 }
 
 type world struct {
